@@ -249,8 +249,9 @@ def load_known():
 class Reporter:
     """Collects violations of one property; prints KNOWN-FINDING / VIOLATION lines; writes evidence."""
 
-    def __init__(self, prop, tier, seed, level):
+    def __init__(self, prop, tier, seed, level, silent=False):
         self.prop, self.tier, self.seed, self.level = prop, tier, seed, level
+        self.silent = silent            # a helper reporter: collects, never prints or writes evidence
         self.t0 = time.time()
         self.known = [(s, d) for (p, s, d) in load_known() if p == prop]
         self.violations = []      # unlisted
@@ -273,6 +274,9 @@ class Reporter:
 
     def violation(self, sig, what, replay):
         """sig: stable structural signature of the failing input class / call site / history."""
+        if self.silent:
+            self.violations.append((sig, what, None))
+            return True
         for ks, kd in self.known:
             if ks == sig:
                 if sig not in self.known_hits:
